@@ -40,6 +40,12 @@ def spellings():
     add("i_cast", I, "validate(less = K8 as i32)", "x < K8 as i32")
     add("i_block", I, "validate(less = { K })", "x < K")
     add("i_neg_lit_mul", I, "validate(less = -1 * K)", "x < -1 * K")
+    add("i_hex_minus", I, "validate(less = 0x20 - 1)", "x < 0x20 - 1")
+    add("i_suffix_minus", I, "validate(less = 10i32 - 3)", "x < 10 - 3")
+    add("i_bin_minus", I, "validate(greater_or_equal = 0b1000 - 6)", "x >= 0b1000 - 6")
+    add("i_lit_minus_const", I, "validate(less = 20 - K)", "x < 20 - K")
+    add("f_suffix_minus", "f64", "validate(greater = 2.5f64 - 1.0)", "!(x <= 2.5 - 1.0)")
+    add("f_lit_minus_const", "f64", "validate(less = 10.0 - KF)", "!(x >= 10.0 - KF)")
     add("i_two_bounds_neg", I, "validate(greater = -K, less = K)", "x > -K && x < K")
     add("i_u8_max", "u8", "validate(less_or_equal = 255)", "true", can_err=False)
     add("i_u8_over", "u8", "validate(less = 256)", "true", can_err=False)
